@@ -428,6 +428,27 @@ func runC09(ctx *core.Ctx) {
 		j := i / len(binops)
 		return feCase{Op: op, A: bitv[(j/nbv)*stride], B: bitv[j%nbv]}
 	})
+	// uniform forms: all five limbs at the same single-bit boundary (a path chosen by "every limb is
+	// small" is only exercised when all limbs are small at once)
+	var univ []elemIn
+	for k := uint(1); k <= 51; k++ {
+		for _, d := range []int64{-1, 0, 1} {
+			m := uint64(int64(1)<<k + d)
+			if m > 1<<51 {
+				continue
+			}
+			univ = append(univ, elemIn{alpha.Limbs{m, m, m, m, m}})
+		}
+	}
+	subC09Forms.Run(ctx, len(univ)*len(unary), func(i int) feCase {
+		return feCase{Op: unary[i%len(unary)], A: univ[i/len(unary)]}
+	})
+	nu := len(univ)
+	subC09Forms.Run(ctx, nu*nu*len(binops), func(i int) feCase {
+		op := binops[i%len(binops)]
+		j := i / len(binops)
+		return feCase{Op: op, A: univ[j/nu], B: univ[j%nu]}
+	})
 	// Mult32 chains
 	thens := []string{"Square", "Negate", "AddSelf", "SubFromZero", "MulSelf"}
 	chainYs := []uint32{0xffffffff, 0xfffffffe, 1 << 31, 19, 1}
